@@ -200,15 +200,21 @@ def split_cases(ops, case_start):
 
 
 def real_code_panic(err):
-    """does the Go traceback of a dead probe start inside src-d/hercules itself (not in the probe or the harness)?"""
+    """does the Go traceback of a dead probe reach src-d/hercules itself before it reaches the probe (main.*) or the
+    harness?  Frames of the Go runtime and the standard library in between are skipped."""
     m = re.search(r'goroutine \d+ \[running\]:\n((?:.*\n)*)', err or '')
     if not m:
         return False
     for line in m.group(1).split('\n'):
+        if not line or line[0] in '\t /':
+            continue            # file:line lines
         line = line.strip()
-        if not line or line.startswith('/') or line.startswith('panic(') or line.startswith('runtime.') or line.startswith('created by'):
-            continue
-        return line.startswith('gopkg.in/src-d/hercules.v10/') and '/verifharness/' not in line
+        if line.startswith('main.') or '/verifharness/' in line:
+            return False
+        if line.startswith('gopkg.in/src-d/hercules.v10/'):
+            return True
+        if line.startswith('goroutine '):
+            break
     return False
 
 
